@@ -320,6 +320,8 @@ fn gen_content_base(t: &mut Tape, env: &Env, n: usize, column: usize) -> (Conten
 const FILE_NAMES: &[&str] = &[
     "a.typ", "b.typ", "main.typ", "c d.typ", "ü.typ", "x.TYP", "y.typ.bak", "notes.txt", "noext", ".hidden.typ", "z.typ", "typ",
     "w.typ", "v.typ", "caf\u{e0e9}.typ", "\u{e0ff}\u{e0fe}.typ", "n\u{e0e9}.txt",
+    // names a careless temporary-file scheme would collide with
+    "a.tmp", "main.tmp", "a.typ.tmp", "a.typ~", "b.bak",
 ];
 const DIR_NAMES: &[&str] = &["sub", "deep", ".git", ".cache", "d.typ", "chapters", "x y", "r\u{e0e9}p"];
 const ROOT_NAMES: &[&str] = &["proj", "proj", ".proj", "my proj", "r.typ", ".x"];
